@@ -356,8 +356,28 @@ class Gen:
                 part = [ident(v, text)]
             elif r < 0.86:
                 part = [simple("["), ident(self.pick(["a", "full-start"])), simple("]")]
-            elif r < 0.89:
+            elif r < 0.875:
                 part = [simple("("), self.numeric(), simple(")")]
+            elif r < 0.9:
+                # a fragment of a calculation outside any math function (a custom property that is substituted into a
+                # calc() later, a var() fallback, a function this compiler does not know): white space around `+` and
+                # `-` is as meaningful as inside calc()
+                def term():
+                    return [self.numeric()] if self.chance(0.7) else [func("env"), ident("safe-area-inset-top"), simple(")")]
+                op = self.pick(["+", "-"])
+                a, b = term(), term()
+                sumtoks = a + [delim(op, ws=True, wsmean="must")] + b
+                b[0].ws = True
+                b[0].wsmean = "must"
+                form = self.pick(["bare", "bare", "var", "unknown-fn"])
+                if form == "bare":
+                    part = sumtoks
+                elif form == "var":
+                    a[0].ws = self.chance(0.5)
+                    part = [func("var"), ident("--x"), simple(",")] + sumtoks + [simple(")")]
+                else:
+                    a[0].ws = self.chance(0.5)
+                    part = [func(self.pick(["calc-size", "random", "progress", "-o-calc", "anchor-size"])), ident("auto"), simple(",")] + sumtoks + [simple(")")]
             else:
                 part = [ident(self.pick(IDENTS))]
             if i:
